@@ -22,6 +22,10 @@ func processColorStops(gradientLineSize pr.Float, positions_ []pr.Dimension) []p
 	L := len(positions_)
 	positions := make([]pr.MaybeFloat, L)
 	for i, position := range positions_ {
+		if position.Unit == pr.Scalar {
+			// a unitless zero, not converted to pixels (gradient in border-image)
+			position.Unit = pr.Px
+		}
 		positions[i] = pr.ResolvePercentage(position.ToValue(), gradientLineSize)
 	}
 	// First and last default to 100%
